@@ -104,7 +104,7 @@ class ShexSerializer(object):
             self._lines_buffer = []
 
     def _reset_target_file(self):
-        if self._string_return:
+        if self._target_file is None:
             return
         with open(self._target_file, "w") as out_stream:
             out_stream.write("")  # Is this necessary? maybe enough to open it in 'w' mode?
@@ -112,7 +112,7 @@ class ShexSerializer(object):
     def _write_lines_buffer(self):
         if self._string_return:
             self._string_result += "".join(self._lines_buffer)
-        else:
+        if self._target_file is not None:
             with open(self._target_file, "a") as out_stream:
                 for a_line in self._lines_buffer:
                     out_stream.write(a_line)
